@@ -110,14 +110,11 @@ func (w *world) queries(r *mon.Rand, n int) {
 		case 0: // BlockLocatorFromHash on any indexed node
 			b := w.pick(r)
 			got := c.BlockLocatorFromHash(&b.Hash)
-			if !w.indexed(b) {
-				// unknown hash: the documented answer is a locator of just that hash
-				if len(got) != 1 || *got[0] != b.Hash {
-					s.Fail("locator:unknown-hash", "BlockLocatorFromHash(unknown) returned %d entries", len(got))
-				}
-				continue
-			}
 			want := refLocator(b)
+			if !w.indexed(b) {
+				// documented: for a hash that is not known the locator of the current best tip is returned
+				want = refLocator(tip)
+			}
 			ok := len(got) == len(want)
 			for i := 0; ok && i < len(got); i++ {
 				ok = *got[i] == want[i]
